@@ -53,7 +53,7 @@ def raw_constructor_sites(ctx: Ctx) -> None:
                 # the three lists this call built in step (each is appended to in this function), and the counts it accumulated
                 kb, kd, ki, ks = (kwarg(c, k) for k in ('blocks', 'dtypes', 'index', 'shape'))
                 appended = {x.func.value.id for x in ast.walk(top.node) if isinstance(x, ast.Call) and isinstance(x.func, ast.Attribute)
-                            and x.func.attr == 'append' and isinstance(x.func.value, ast.Name)}
+                            and x.func.attr in ('append', 'extend') and isinstance(x.func.value, ast.Name)}
                 lists = [x.id for x in (kb, kd, ki) if isinstance(x, ast.Name)]
                 good = len(lists) == 3 and len(set(lists)) == 3 and set(lists) <= appended \
                     and isinstance(ks, ast.Tuple) and len(ks.elts) == 2 and all(isinstance(e, ast.Name) for e in ks.elts) \
@@ -78,6 +78,15 @@ def _directory_roles(fn: ast.AST) -> tp.Dict[str, tp.Optional[str]]:
     per-block row / column counts come from shape_filter(<loop block>); the loop variables."""
     out: tp.Dict[str, tp.Optional[str]] = {}
     for c in ast.walk(fn):
+        if isinstance(c, ast.Call) and isinstance(c.func, ast.Attribute) and c.func.attr == 'extend' and isinstance(c.func.value, ast.Name) and len(c.args) == 1:
+            # index.extend((block_count, i) for i in range(c)) / dtypes.extend([block.dtype] * c): the extend spelling of the per-column loop
+            a = c.args[0]
+            if isinstance(a, (ast.GeneratorExp, ast.ListComp)) and isinstance(a.elt, ast.Tuple) and len(a.elt.elts) == 2 and all(isinstance(e, ast.Name) for e in a.elt.elts):
+                out.setdefault('index', c.func.value.id)
+                out.setdefault('block_count', a.elt.elts[0].id)
+                out.setdefault('i', a.elt.elts[1].id)
+            elif any(isinstance(x, ast.Attribute) and x.attr == 'dtype' for x in ast.walk(a)):
+                out.setdefault('dtypes', c.func.value.id)
         if isinstance(c, ast.Call) and isinstance(c.func, ast.Attribute) and c.func.attr == 'append' and isinstance(c.func.value, ast.Name) and len(c.args) == 1:
             a = c.args[0]
             if isinstance(a, ast.Tuple) and len(a.elts) == 2 and all(isinstance(e, ast.Name) for e in a.elts):
@@ -128,14 +137,36 @@ def from_blocks_lockstep(ctx: Ctx) -> None:
         return None
     i_skip = pos(lambda s: isinstance(s, ast.If) and norm(s.test) == 'c == 0' and any(isinstance(x, ast.Continue) for x in s.body))
     i_blocks = pos(lambda s: norm(s).startswith('blocks.append('))
-    i_dir = pos(lambda s: isinstance(s, ast.For) and norm(s.iter) == 'range(c)')
+    def writes_index(st: ast.stmt, count: str, src: str) -> bool:
+        '''one (block_count, i) entry per column: the loop form or the extend form'''
+        if isinstance(st, ast.For) and norm(st.iter) == f'range({count})':
+            return 'index.append((block_count, i))' in {norm(x) for x in st.body}
+        if isinstance(st, ast.Expr) and isinstance(st.value, ast.Call) and norm(st.value.func) == 'index.extend' and st.value.args:
+            a = st.value.args[0]
+            return isinstance(a, (ast.GeneratorExp, ast.ListComp)) and norm(a.elt) == '(block_count, i)' and len(a.generators) == 1 and not a.generators[0].ifs \
+                and norm(a.generators[0].iter) == f'range({count})' and norm(a.generators[0].target) == 'i'
+        return False
+
+    def writes_dtypes(st: ast.stmt, count: str, src: str) -> bool:
+        '''one dtype entry per column: the loop form, `extend([d] * count)` or `extend(d for _ in range(count))`'''
+        if isinstance(st, ast.For) and norm(st.iter) == f'range({count})':
+            return f'dtypes.append({src}.dtype)' in {norm(x) for x in st.body}
+        if isinstance(st, ast.Expr) and isinstance(st.value, ast.Call) and norm(st.value.func) == 'dtypes.extend' and st.value.args:
+            a = st.value.args[0]
+            if isinstance(a, ast.BinOp) and isinstance(a.op, ast.Mult):
+                return {norm(a.left), norm(a.right)} == {f'[{src}.dtype]', count}
+            if isinstance(a, (ast.GeneratorExp, ast.ListComp)):
+                return norm(a.elt) == f'{src}.dtype' and len(a.generators) == 1 and not a.generators[0].ifs and norm(a.generators[0].iter) == f'range({count})'
+        return False
+    i_dir_index = pos(lambda s: writes_index(s, 'c', 'block'))
+    i_dir_dtypes = pos(lambda s: writes_dtypes(s, 'c', 'block'))
+    i_dir = max(i_dir_index, i_dir_dtypes) if i_dir_index is not None and i_dir_dtypes is not None else None
     i_cols = pos(lambda s: norm(s) == 'column_count += c')
     i_cnt = pos(lambda s: norm(s) == 'block_count += 1')
     i_rows = pos(lambda s: isinstance(s, ast.If) and 'r != row_count' in norm(s.test) and any(isinstance(x, ast.Raise) for x in s.body))
     checks = (
         ('block-list', i_blocks is not None, 'blocks.append(...) per accepted block'),
-        ('directory', i_dir is not None and {'index.append((block_count, i))', 'dtypes.append(block.dtype)'} <= {norm(x) for x in body[i_dir].body} if i_dir is not None else False,
-         'index.append((block_count, i)) and dtypes.append(block.dtype) once per column'),
+        ('directory', i_dir is not None, 'one (block_count, i) index entry and one block.dtype entry per column'),
         ('column-count', i_cols is not None, 'column_count += c'),
         ('block-counter', i_cnt is not None and i_dir is not None and i_cnt > i_dir, 'block_count += 1 after the directory entries of this block were written'),
         ('skip-empty-first', i_skip is not None and all(x is None or x > i_skip for x in (i_blocks, i_dir, i_cols, i_cnt)), 'zero-width blocks are skipped before any update'),
@@ -148,8 +179,9 @@ def from_blocks_lockstep(ctx: Ctx) -> None:
                       for x in ast.walk(s) if isinstance(x, (ast.AugAssign, ast.Call)) and norm(x).startswith(('blocks.append', 'column_count +=', 'block_count +=', 'index.append', 'dtypes.append'))]
     (ctx.ok if not nested_updates else ctx.bad)(R, f, lp, 'no directory update is conditional' if not nested_updates else f'conditional updates: {nested_updates}', key='unconditional')
     # single-array branch
-    single = [n for n in walk_local(fnode) if isinstance(n, ast.For) and norm(n.iter) == 'range(column_count)']
-    good = bool(single) and {'index.append((block_count, i))', 'dtypes.append(raw_blocks.dtype)'} <= {norm(x) for x in single[0].body}
+    stmts_all = [n for n in walk_local(fnode) if isinstance(n, ast.stmt)]
+    single = [n for n in stmts_all if writes_index(n, 'column_count', 'raw_blocks')]
+    good = bool(single) and any(writes_dtypes(n, 'column_count', 'raw_blocks') for n in stmts_all)
     (ctx.ok if good else ctx.bad)(R, f, single[0] if single else f.node, 'single-array form writes one directory entry per column' if good else
                                   'the single-array branch of from_blocks no longer writes index and dtypes per column', key='single-array')
 
